@@ -5,8 +5,12 @@ from concurrent.futures import ThreadPoolExecutor
 
 ROOT = os.path.dirname(os.path.dirname(os.path.abspath(__file__)))
 SPEC = os.path.join(ROOT, "spec")
-WORK = os.path.join(ROOT, "work")
-HARNESS = os.path.join(ROOT, "harness")
+# (the three overrides are used only by tools/seed_run2.sh, which runs a check against a scratch
+# copy of /repo with a seeded change while /repo itself is in use; the registered commands never
+# set them)
+WORK = os.environ.get("VERIF_WORK", os.path.join(ROOT, "work"))
+HARNESS = os.environ.get("VERIF_HARNESS", os.path.join(ROOT, "harness"))
+EVIDENCE = os.environ.get("VERIF_EVIDENCE", os.path.join(ROOT, "evidence"))
 CP = "/opt/veriftools/tla/tla2tools.jar:/opt/veriftools/tla/CommunityModules-deps.jar"
 
 
@@ -332,7 +336,7 @@ class Check:
 
     def finish(self):
         wall = round(time.time() - self.t0, 1)
-        os.makedirs(os.path.join(ROOT, "evidence"), exist_ok=True)
+        os.makedirs(EVIDENCE, exist_ok=True)
         rdir = os.path.join(WORK, "replays", self.pid)
         paths = []
         if self.violations:
@@ -357,7 +361,7 @@ class Check:
         ev = {"property_id": self.pid, "tier": self.tier, "seed": self.seed, "level": self.level, "coverage": cov,
               "assumptions": self.assumptions, "wall_s": wall, "violations": len(self.violations),
               "known_findings_seen": [f["id"] for f, _ in self.known]}
-        with open(os.path.join(ROOT, "evidence", f"{self.pid}.json"), "w") as f:
+        with open(os.path.join(EVIDENCE, f"{self.pid}.json"), "w") as f:
             json.dump(ev, f, indent=1, default=str)
         seen = set()
         for f, v in self.known:
